@@ -207,12 +207,63 @@ def _prepare(repo, rep):
                   "the name is case-folded when it is recorded (line %d)"
                   % st.lineno, construct="store-key:%s" % src(key), where=wh,
                   detail=src(key))
-        ok, detail = _index_ok(f, st, block, i, val, lists)
-        rep.check(ok, "R07.1", site,
-                  "%s[%s] = %s records the index of the entry that was just "
-                  "stored (line %d)" % (mp, src(key), src(val), st.lineno),
-                  construct="index:%s" % _branch_name(f.node, st), where=wh,
-                  detail=detail)
+        pass
+    # R07.1 the recorded index is the position of the entry stored on the
+    # same pass through the loop body (symbolic list length per path)
+    loops = [s for s, _, _ in stmts if isinstance(s, ast.For)
+             and getattr(s, "_parent", None) is f.node]
+    in_loop = set()
+    for loop in loops:
+        for n in ast.walk(loop):
+            in_loop.add(id(n))
+        paths = P.enum_paths(loop.body)
+        rep.count("paths", len(paths))
+        probs, nst = [], 0
+        for p in paths:
+            res = _interp(p, lists, maps)
+            if res is None:
+                continue
+            writes, stores, bad = res
+            nst += len(stores)
+            probs.extend(bad)
+            for key, val, line in stores:
+                if not any(pos == val for pos, _ in writes):
+                    probs.append(
+                        "line %d records %s while the entry of this pass "
+                        "is stored at %s" % (line, _show(val), ", ".join(
+                            _show(pos) for pos, _ in writes) or "nothing"))
+            pc = [(src(e[1]), e[2]) for e in p if e[0] == "cond"]
+            for pos, line in writes:
+                if pos[0] == "n" and not stores and not (
+                        L.cond_holds(pc, "name is not None", False) or
+                        L.cond_holds(pc, "name is None", True)):
+                    probs.append("line %d adds an entry whose index is "
+                                 "not recorded" % line)
+        if nst or probs:
+            rep.check(not probs, "R07.1", site,
+                      "the name map records, for every entry added in the "
+                      "loop over %s, the position that entry is stored at"
+                      % src(loop.iter),
+                      construct="index:for %s" % src(loop.iter),
+                      where=L.where(f, loop.lineno),
+                      detail="; ".join(sorted(set(probs)))[:300])
+    for st, block, i in stmts:
+        tgt = None
+        if isinstance(st, ast.Assign) and \
+                isinstance(st.targets[0], ast.Subscript) and \
+                isinstance(st.targets[0].value, ast.Name) and \
+                st.targets[0].value.id in maps:
+            tgt = st
+        if isinstance(st, ast.Expr) and isinstance(st.value, ast.Call) and \
+                isinstance(st.value.func, ast.Attribute) and \
+                st.value.func.attr in ("setdefault", "update") and \
+                src(st.value.func.value) in maps:
+            tgt = st
+        if tgt is not None and id(tgt) not in in_loop:
+            rep.check(False, "R07.1", site, "a store into the name map "
+                      "outside the three merge loops is not followed",
+                      construct="index:top", where=L.where(f, st.lineno),
+                      detail=src(st)[:80])
     rep.require_min("R07.1", 3, "static, dynamic and i18n recorders")
     # R07.2 lookups
     nlook = 0
@@ -274,44 +325,50 @@ def _prepare(repo, rep):
         rep.count("paths", len(paths))
         ok = True
         for p in paths:
-            pc = [(src(e[1]), e[2]) for e in p if e[0] == "cond"]
-            found = L.cond_holds(pc, "index is not None", True)
-            adders = [src(e[2]) for e in p if e[0] == "assign"
-                      and e[1] == "add"]
-            ci = max([k for k, e in enumerate(p) if e[0] == "cond" and
-                      src(e[1]).replace(" ", "") in (
-                          "indexisNone", "indexisnotNone")] or [0])
-            idx = [src(e[2]) for e in p[ci:] if e[0] == "assign"
-                   and e[1] == "index"]
-            calls = [src(c) for c, _ in P.calls_on_path(p)
-                     if src(c.func) == "add"]
-            if found:
-                if adders != [lst + ".__setitem__"] or idx:
-                    ok = False
-                    detail = "existing name: %s / index reassigned %s" % (
-                        adders, idx)
-            else:
-                if adders != [lst + ".insert"] or idx != ["len(%s)" % lst]:
-                    ok = False
-                    detail = "new name: %s at %s" % (adders, idx)
-            if calls != ["add(index, attribute)"]:
+            res = _interp(p, lists, maps)
+            if res is None:
+                continue
+            writes, _, bad = res
+            kinds = sorted({pos[0] for pos, _ in writes})
+            # one entry per statement: either over the entry the name map
+            # points at, or at the end
+            if len(writes) != 1 or bad or kinds[0] not in ("idx", "n") or (
+                    kinds[0] == "n" and writes[0][0] != ("n", 0)):
                 ok = False
-                detail = "stores: %s" % calls
+                detail = "a pass stores %s%s" % (
+                    ", ".join(_show(pos) for pos, _ in writes) or "nothing",
+                    "; " + bad[0] if bad else "")
     rep.check(ok, "R07.6", site, "a dynamic value for an existing name "
               "replaces that entry in place (at most once per name); a new "
               "name is inserted at the end", construct="dynamic-merge",
               where=L.where(f), detail=detail)
-    # the static text/quote/space/eq survive the replacement
-    ok = any(isinstance(s, ast.Assign) and
-             src(s.targets[0]) == "(_, text, quote, space, eq, _)" and
-             src(s.value) == "%s[index]" % lst for s, _, _ in stmts)
-    rep.check(ok, "R07.6", site, "the replaced entry keeps the static text "
-              "(default), quote, spacing and '='", construct="keep-lexical",
-              where=L.where(f))
-    ok = any(isinstance(s, ast.Assign) and src(s.targets[0]) == "attribute"
-             and src(s.value) == "(name, text, quote, space, eq, expr)"
-             for s, _, _ in stmts)
-    rep.check(ok, "R07.6", site, "the merged entry is (name, text, quote, "
+    # the static text/quote/space/eq survive the replacement; the merged
+    # entry is (name, text, quote, space, eq, expr)
+    keep, shape, nfound = True, True, 0
+    tg = dyn_loops[0].target if len(dyn_loops) == 1 else None
+    tnames = [x.id for x in getattr(tg, "elts", []) if isinstance(x, ast.Name)]
+    if len(tnames) != 2:
+        tnames = ["name", "expr"]
+    for p in (paths if len(dyn_loops) == 1 else []):
+        res = _interp(p, lists, maps)
+        if res is None:
+            continue
+        for pos, line in res[0]:
+            v = _interp.values.get(line)
+            if not (v and v[0] == "tuple" and len(v[1]) == 6 and
+                    v[1][0] == ("var", tnames[0]) and
+                    v[1][5] == ("var", tnames[1])):
+                shape = False
+                continue
+            if pos[0] == "idx":
+                nfound += 1
+                if [x for x in v[1][1:5]] != [
+                        ("field", pos, k) for k in (1, 2, 3, 4)]:
+                    keep = False
+    rep.check(keep and nfound > 0, "R07.6", site, "the replaced entry keeps "
+              "the static text (default), quote, spacing and '='",
+              construct="keep-lexical", where=L.where(f))
+    rep.check(shape, "R07.6", site, "the merged entry is (name, text, quote, "
               "space, eq, expr)", construct="merged-tuple", where=L.where(f))
     # duplicates inside one tal:attributes are rejected by parse_attributes
     pa = repo.func("chameleon.tal.parse_attributes")
@@ -320,6 +377,135 @@ def _prepare(repo, rep):
               "seen.add(name)" in t2, "R07.6", pa.qualname,
               "a name may occur once in a tal:attributes list",
               construct="duplicates", where=L.where(pa))
+
+
+def _show(v):
+    if v[0] == "n":
+        return "len%+d" % v[1] if v[1] else "len"
+    return "%s(%s)" % v[:2]
+
+
+def _interp(path, lists, maps):
+    """Walk one path through a merge-loop body with the list length kept
+    symbolically (n + k, n = length when the pass starts).  Returns
+    (writes [(position, line)], stores [(key, value, line)], problems)."""
+    ln = [0]
+    env = {}
+    writes, stores, bad = [], [], []
+    values = _interp.values = {}
+
+    def ev(e):
+        t = src(e)
+        for lst in lists:
+            if t == "len(%s)" % lst:
+                return ("n", ln[0])
+            if t == "len(%s) - 1" % lst:
+                return ("n", ln[0] - 1)
+            if t in (lst + ".__setitem__", lst + ".insert", lst + ".append"):
+                return ("method", t.split(".")[1])
+        if isinstance(e, ast.Name):
+            return env.get(e.id, ("var", e.id))
+        if isinstance(e, ast.IfExp):
+            # index = map.get(key) if name else None
+            a, b = ev(e.body), ev(e.orelse)
+            if b == ("const", "None"):
+                return a
+            if a == ("const", "None"):
+                return b
+            return ("expr", t)
+        if isinstance(e, ast.Constant):
+            return ("const", repr(e.value))
+        if isinstance(e, ast.Tuple):
+            return ("tuple", tuple(ev(x) for x in e.elts))
+        if isinstance(e, ast.Call) and isinstance(e.func, ast.Attribute) \
+                and e.func.attr == "get" and src(e.func.value) in maps \
+                and len(e.args) == 1:
+            return ("idx", src(e.args[0]))
+        if isinstance(e, ast.Subscript) and src(e.value) in maps:
+            return ("idx", src(e.slice))
+        return ("expr", t)
+
+    def write(kind, args, line):
+        values[line] = ev(args[-1]) if args else None
+        if kind == "append":
+            writes.append((("n", ln[0]), line))
+            ln[0] += 1
+        elif kind == "insert":
+            pos = ev(args[0])
+            if pos != ("n", ln[0]):
+                bad.append("line %d inserts at %s, which shifts the entries "
+                           "recorded earlier" % (line, _show(pos)))
+            writes.append((pos, line))
+            ln[0] += 1
+        elif kind == "__setitem__":
+            pos = ev(args[0])
+            if pos[0] != "idx":
+                bad.append("line %d overwrites position %s, which is not "
+                           "an index taken from the name map" % (
+                               line, _show(pos)))
+            writes.append((pos, line))
+
+    for e in path:
+        if e[0] == "cond":
+            t = e[1]
+            if isinstance(t, ast.Compare) and len(t.ops) == 1 and \
+                    isinstance(t.ops[0], (ast.Is, ast.IsNot)) and \
+                    isinstance(t.left, ast.Name) and \
+                    src(t.comparators[0]) == "None":
+                v = env.get(t.left.id)
+                is_none = e[2] == isinstance(t.ops[0], ast.Is)
+                if v is not None and v[0] in ("const", "n") and \
+                        (v == ("const", "None")) != is_none:
+                    return None     # infeasible
+        elif e[0] == "assign":
+            tgt, val, st = e[1], e[2], e[3]
+            tnode = None
+            for t_ in getattr(st, "targets", []):
+                if src(t_) == tgt:
+                    tnode = t_
+            if isinstance(tnode, ast.Subscript) and src(tnode.value) in lists:
+                write("__setitem__", [tnode.slice, val], st.lineno)
+            elif isinstance(tnode, ast.Subscript) and \
+                    src(tnode.value) in maps:
+                stores.append((src(tnode.slice), ev(val), st.lineno))
+            elif isinstance(tnode, ast.Name):
+                env[tnode.id] = ev(val)
+            elif isinstance(tnode, (ast.Tuple, ast.List)):
+                from_entry = isinstance(val, ast.Subscript) and \
+                    src(val.value) in lists
+                for k, x in enumerate(tnode.elts):
+                    if isinstance(x, ast.Name):
+                        env[x.id] = ("field", ev(val.slice), k) \
+                            if from_entry else ("var", x.id)
+        elif e[0] == "aug":
+            if e[1] in lists:
+                bad.append("line %d extends the list" % e[-1].lineno)
+            env[e[1]] = ("expr", "aug")
+        elif e[0] == "expr" and isinstance(e[1], ast.Call):
+            c = e[1]
+            fn = src(c.func)
+            kind = None
+            if isinstance(c.func, ast.Name):
+                m_ = env.get(c.func.id)
+                if m_ and m_[0] == "method":
+                    kind = m_[1]
+            elif isinstance(c.func, ast.Attribute) and \
+                    src(c.func.value) in lists:
+                kind = c.func.attr
+                if kind not in ("append", "insert", "__setitem__"):
+                    bad.append("line %d: %s changes the list in a way that "
+                               "is not followed" % (c.lineno, fn))
+                    kind = None
+            elif isinstance(c.func, ast.Attribute) and \
+                    src(c.func.value) in maps:
+                if c.func.attr == "setdefault" and len(c.args) == 2:
+                    stores.append((src(c.args[0]), ev(c.args[1]), c.lineno))
+                elif c.func.attr not in ("get",):
+                    bad.append("line %d: %s changes the name map in a way "
+                               "that is not followed" % (c.lineno, fn))
+            if kind:
+                write(kind, c.args, c.lineno)
+    return writes, stores, bad
 
 
 def _is_lowered_name(fnode, key):
